@@ -3,10 +3,12 @@ package checks
 import (
 	"bytes"
 	"fmt"
+	"io"
 	"os"
 	"os/exec"
 	"sort"
 	"strings"
+	"time"
 
 	"github.com/gregoryv/mq"
 
@@ -82,6 +84,105 @@ func opRead(name string, frame []byte) thrOp {
 		}
 		return obsPlain(p)
 	}}
+}
+
+// envPoint is a scheduling point inside the environment (a Read or Write
+// call of the caller's reader/writer): under the cooperative scheduler the
+// goroutine may be preempted while it is "blocked in I/O"; free-running
+// (race pass, monitor) it is a no-op.
+func envPoint() {
+	if h := mq.VerifStepHook; h != nil {
+		h(-1)
+	}
+}
+
+// slowWriter takes what it is given in two halves with a scheduling point
+// in between: a writer that has not consumed all of its argument yet when
+// another goroutine runs.
+type slowWriter struct{ got []byte }
+
+func (w *slowWriter) Write(p []byte) (int, error) {
+	h := len(p) / 2
+	w.got = append(w.got, p[:h]...)
+	envPoint()
+	w.got = append(w.got, p[h:]...)
+	return len(p), nil
+}
+
+func opWriteSlow(name string, p mq.Packet) thrOp {
+	return thrOp{name + ".WriteTo(slow writer)", func() string {
+		w := &slowWriter{}
+		n, err := p.WriteTo(w)
+		return fmt.Sprintf("%x n=%d err=%v", w.got, n, err)
+	}}
+}
+
+// segReader delivers its stream in segments of at most chunk bytes, with a
+// scheduling point before every Read after the first.
+type segReader struct {
+	data  []byte
+	chunk int
+	calls int
+}
+
+func (r *segReader) Read(p []byte) (int, error) {
+	if r.calls > 0 {
+		envPoint()
+	}
+	r.calls++
+	if len(r.data) == 0 {
+		return 0, io.EOF
+	}
+	n := len(p)
+	if n > r.chunk {
+		n = r.chunk
+	}
+	if n > len(r.data) {
+		n = len(r.data)
+	}
+	copy(p, r.data[:n])
+	r.data = r.data[n:]
+	return n, nil
+}
+
+func opReadSeg(name string, frame []byte, chunk int) thrOp {
+	return thrOp{name + fmt.Sprintf(".ReadPacket(segments of %d)", chunk), func() string {
+		p, err := mq.ReadPacket(&segReader{data: append([]byte(nil), frame...), chunk: chunk})
+		if err != nil {
+			return "error: " + err.Error()
+		}
+		return obsPlain(p)
+	}}
+}
+
+// failingWriter accepts k bytes and fails.
+type failingWriter struct{ k int }
+
+func (w *failingWriter) Write(p []byte) (int, error) {
+	if len(p) <= w.k {
+		w.k -= len(p)
+		return len(p), nil
+	}
+	return w.k, fmt.Errorf("injected write failure")
+}
+
+func mustDecode(frame []byte) mq.Packet {
+	p, err := mq.ReadPacket(bytes.NewReader(frame))
+	if err != nil {
+		panic(fmt.Sprintf("scenario setup: %v", err))
+	}
+	return p
+}
+
+// foreignFrames: frames the decoder accepts although they carry a property
+// foreign to the packet type (here a subscription identifier).
+func foreignFrames() [][]byte {
+	return [][]byte{
+		{0xe0, 0x04, 0x00, 0x02, 0x0b, 0x07},
+		{0x40, 0x08, 0x00, 0x01, 0x00, 0x04, 0x0b, 0x07, 0x0b, 0x09},
+		{0x20, 0x07, 0x00, 0x00, 0x04, 0x0b, 0x07, 0x0b, 0x09},
+		{0xf0, 0x04, 0x00, 0x02, 0x0b, 0x05},
+	}
 }
 
 // obsPlain is obsKey without the guard (which writes hook globals and must
@@ -173,12 +274,89 @@ func Scenarios() []scenario {
 		p := mustBuild(richPacket(2, true))
 		return []any{p}, [][]thrOp{{opWrite("A", p), opDump("A", p)}, {opAcc("B", p)}}
 	}})
+	// packets that came from the wire, shared, while another goroutine
+	// reads other streams (frames of every kind, also with properties
+	// foreign to their type): ReadPacket on a distinct stream must not
+	// touch them
+	for _, t := range []byte{3, 1, 8, 2} {
+		t := t
+		out = append(out, scenario{"decoded-shared-vs-reads/" + bind.TypeNames[t], func() ([]any, [][]thrOp) {
+			p := mustDecode(mustEncode(richPacket(t, true), spec.Form{}))
+			reads := []thrOp{}
+			for i, f := range foreignFrames() {
+				reads = append(reads, opRead(fmt.Sprintf("foreign%d", i), f))
+			}
+			reads = append(reads, opRead("rich", mustEncode(richPacket(4, true), spec.Form{})))
+			return []any{p}, [][]thrOp{{opWrite("A", p), opString("A", p)}, reads}
+		}})
+	}
+	// two streams read concurrently, one of them arriving in segments
+	// (the goroutine is preempted while waiting for the rest of its body),
+	// without and with an earlier read that failed inside a body
+	twoFrames := func() ([]byte, []byte) {
+		a := mustEncode(&spec.Packet{Type: 3, Topic: []byte("alpha/1"), Payload: []byte("payload-of-stream-one")}, spec.Form{})
+		b := mustEncode(&spec.Packet{Type: 3, Topic: []byte("brava/1"), Payload: []byte("PAYLOAD-OF-STREAM-TWO")}, spec.Form{})
+		return a, b
+	}
+	for _, fault := range []bool{false, true} {
+		fault := fault
+		name := "two-streams-segmented"
+		if fault {
+			name = "after-read-fault/two-streams-segmented"
+		}
+		out = append(out, scenario{name, func() ([]any, [][]thrOp) {
+			a, b := twoFrames()
+			if fault {
+				for _, cut := range []int{len(a) - 3, 5} {
+					mq.ReadPacket(bytes.NewReader(a[:cut])) // the stream ends inside the body
+				}
+			}
+			return nil, [][]thrOp{{opReadSeg("s1", a, len(a)/2)}, {opReadSeg("s2", b, len(b))}}
+		}})
+	}
+	// two packets written concurrently to writers that take their argument
+	// in two halves, without and with an earlier write that failed; small
+	// and kilobyte-sized frames
+	for _, size := range []int{0, 2000} {
+		for _, fault := range []bool{false, true} {
+			size, fault := size, fault
+			name := fmt.Sprintf("two-writes-slow-writer/%dB", size)
+			if fault {
+				name = "after-write-fault/" + name
+			}
+			out = append(out, scenario{name, func() ([]any, [][]thrOp) {
+				a := mq.Pub(1, "alpha/1", string(gen.Content('A', size+20)))
+				a.SetPacketID(1)
+				b := mq.Pub(1, "brava/1", string(gen.Content('B', size+20)))
+				b.SetPacketID(2)
+				if fault {
+					for _, k := range []int{0, 7, size/2 + 9} {
+						a.WriteTo(&failingWriter{k: k})
+					}
+				}
+				return []any{a, b}, [][]thrOp{{opWriteSlow("a", a)}, {opWriteSlow("b", b)}}
+			}})
+		}
+	}
+	for _, t := range []byte{1, 4, 9} {
+		t := t
+		out = append(out, scenario{"after-write-fault/two-writes-slow-writer/" + bind.TypeNames[t], func() ([]any, [][]thrOp) {
+			a := mustBuild(richPacket(t, true))
+			b := mustBuild(minimalPacket(t))
+			a.WriteTo(&failingWriter{k: 3})
+			return []any{a, b}, [][]thrOp{{opWriteSlow("a", a)}, {opWriteSlow("b", b)}}
+		}})
+	}
 	return out
 }
 
 // ---- cooperative scheduler ----------------------------------------------
 
+// schedWatchdog only decides when to give up exploring; it never decides a verdict.
+const schedWatchdog = 20 * time.Second
+
 type coSched struct {
+	blocked  bool
 	c        *explore.SparseChooser
 	turn     []chan struct{}
 	done     []bool
@@ -211,8 +389,8 @@ func (s *coSched) point(id int) {
 	}
 	me, tgt := s.cur, o[ch-1]
 	s.switches++
-	pos := "?"
-	if id < len(mq.VerifStepPos) {
+	pos := "inside the caller's Read/Write"
+	if id >= 0 && id < len(mq.VerifStepPos) {
 		pos = mq.VerifStepPos[id]
 	}
 	s.trace = append(s.trace, fmt.Sprintf("point %d (%s): g%d->g%d", idx, pos, me, tgt))
@@ -267,7 +445,15 @@ func runSchedule(sc scenario, c *explore.SparseChooser) (outs [][]string, final 
 	mq.VerifStepHook = s.point
 	s.cur = 0
 	s.turn[0] <- struct{}{}
-	<-s.allDone
+	select {
+	case <-s.allDone:
+	case <-time.After(schedWatchdog):
+		// a goroutine blocks on a primitive the cooperative scheduler does
+		// not model (the library has started to synchronise and was
+		// preempted inside a critical section): this schedule is abandoned,
+		// it is no verdict
+		s.blocked = true
+	}
 	mq.VerifStepHook = nil
 	final = stateDigest(roots...)
 	return
@@ -288,9 +474,15 @@ func sequentialRef(sc scenario) [][]string {
 
 func c13ScheduleFinding(sc scenario, devs []explore.Dev, ref [][]string) *core.Finding {
 	outs, final, initial, s := runSchedule(sc, explore.NewSparseChooser(devs))
+	if s.blocked {
+		return nil
+	}
 	_, threads := sc.Setup()
 	for i := range outs {
 		for j := range outs[i] {
+			if j >= len(ref[i]) {
+				break
+			}
 			if outs[i][j] != ref[i][j] {
 				return &core.Finding{Class: "schedule-changes-output/" + sc.Name, Sig: map[string]string{"scenario": sc.Name},
 					Detail: fmt.Sprintf("scenario %s, schedule [%s]: goroutine %d operation %s returned %q, sequentially it returns %q", sc.Name, strings.Join(s.trace, "; "), i, threads[i][j].Name, clip(outs[i][j], 150), clip(ref[i][j], 150))}
@@ -359,6 +551,8 @@ func c13Monitor(t byte, vec gen.Vec, op string, gateOK bool) (*core.Finding, int
 		Detail: fmt.Sprintf("%s: %s writes shared state (packet graph or package-level variable), first seen %s; two goroutines running it on the same packet race", desc, op, at)}, steps
 }
 
+var schedulesBlocked bool
+
 func runC13(x *core.Ctx) {
 	if !mq.VerifInstrumented {
 		x.Cap("not the instrumented build")
@@ -368,7 +562,7 @@ func runC13(x *core.Ctx) {
 	if facts, err := loadInstrFacts(); err == nil {
 		for _, u := range facts.SyncUses {
 			gateOK = false
-			x.Cap(fmt.Sprintf("static gate failed: %s at %s — digest changes alone are no verdict; preemptive schedule exploration is skipped (the cooperative scheduler does not model blocking primitives)", u.What, u.Pos))
+			x.Cap(fmt.Sprintf("static gate failed: %s at %s — digest changes alone are no verdict; schedules are still explored (a schedule that blocks on a primitive the cooperative scheduler does not model is abandoned by a watchdog and ends the exploration without a verdict)", u.What, u.Pos))
 		}
 		x.R.Extra["static_gate_no_synchronisation"] = gateOK
 		x.R.Extra["globals_monitored"] = len(facts.Globals)
@@ -432,12 +626,32 @@ func runC13(x *core.Ctx) {
 		resetGlobals()
 		shared, threads := sc.Setup()
 		roots := append(append([]any{}, shared...), globalsRoots()...)
+		obsShared := func() string {
+			var sb strings.Builder
+			for _, sh := range shared {
+				if p, ok := sh.(mq.Packet); ok {
+					sb.WriteString(obsPlain(p))
+					sb.WriteString("\n")
+				}
+			}
+			return sb.String()
+		}
 		for ti := range threads {
 			for _, op := range threads[ti] {
+				before := obsShared()
 				at, steps := monitorOp(roots, func() { op.Run() })
 				x.Eval("monitor.scenario")
 				x.R.States += steps
 				x.R.Transitions += steps
+				if after := obsShared(); after != before {
+					// whatever synchronisation the library uses: an operation
+					// that is read-only (or works on a private stream) changed
+					// what a shared packet's accessors and encoding show
+					f := &core.Finding{Class: "shared-packet-changed/scenario/" + sc.Name, Detail: fmt.Sprintf("scenario %s: %s changed a shared packet: %q -> %q", sc.Name, op.Name, clip(firstDiff(before, after), 140), clip(firstDiff(after, before), 140))}
+					name := op.Name
+					x.Report(f, func() core.Case { return core.Case{Harness: "c13.monitor.scenario", Note: sc.Name + " " + name} }, func() *core.Finding { return f })
+					continue
+				}
 				if at != "" && gateOK {
 					f := &core.Finding{Class: "shared-write/scenario/" + sc.Name, Detail: fmt.Sprintf("scenario %s: %s writes shared state, first seen %s", sc.Name, op.Name, at)}
 					x.Report(f, func() core.Case { return core.Case{Harness: "c13.monitor.scenario", Note: sc.Name + " " + op.Name} }, func() *core.Finding { return f })
@@ -469,8 +683,11 @@ func runC13(x *core.Ctx) {
 		case L <= 700:
 			bound = 2
 		}
-		if !gateOK {
-			bound = 0
+		if !gateOK && bound > 1 && L > 300 {
+			bound = 1
+		}
+		if schedulesBlocked {
+			break
 		}
 		_, threads := sc.Setup()
 		e := &explore.SparseExplorer{Bound: bound}
@@ -480,6 +697,11 @@ func runC13(x *core.Ctx) {
 		e.Run = func(c *explore.SparseChooser) bool {
 			devs := c.Devs()
 			outs, final, initial, s := runSchedule(sc, c)
+			if s.blocked {
+				schedulesBlocked = true
+				x.Cap("a schedule of scenario " + sc.Name + " blocked on a primitive the cooperative scheduler does not model; schedule exploration ended there")
+				return false
+			}
 			if len(devs) > 0 || x.Shard == 0 {
 				// the root schedule is run by every worker but counted once
 				x.Eval(fmt.Sprintf("schedules.bound%d", bound))
@@ -493,16 +715,15 @@ func runC13(x *core.Ctx) {
 				}
 				x.Distinct(core.HashInts(sc.Name, h))
 			}
-			bad := final != initial
+			bad := final != initial && gateOK
 			outputBad := false
 			for i := range outs {
 				for j := range outs[i] {
-					if outs[i][j] != ref[i][j] {
+					if j < len(ref[i]) && outs[i][j] != ref[i][j] {
 						bad, outputBad = true, true
 					}
 				}
 			}
-			_ = s
 			if bad {
 				x.Report(c13ScheduleFinding(sc, devs, ref), func() core.Case {
 					h := []int{}
